@@ -610,7 +610,8 @@ class Sweep(object):
         others = sorted(x for x in lib.SEGMENTS if x != sn and x != 'ANYHL7SEGMENT' and is_seq(lib.SEGMENTS[x])
                         and lib.SEGMENTS[x][1])
         o = others[(others.index(min(others, key=lambda x: (x < sn, x)))) % len(others)] if others else None
-        negs = [('%s_0' % sn, 'index 0'), ('%s_1_1' % sn, 'a positional path is not a segment child (3 parts)'),
+        negs = [('%s_0' % sn, 'index 0'), ('%s_-1' % sn, 'negative index'), ('%s_07' % sn, 'index with a leading zero'),
+                ('%s_1_1' % sn, 'a positional path is not a segment child (3 parts)'),
                 (sn, 'the segment itself'), ('XQZ_1', 'unknown name'), ('%s_x' % sn, 'non-numeric index'),
                 ('%s_1_1_1_1' % sn, '5 parts')]
         if not open_ended:
@@ -625,8 +626,9 @@ class Sweep(object):
         if rows and is_seq(rows[0][1]):
             negs.append((rows[0][1][1][0][0], 'a component name is not a segment child'))
         for sp, why in negs:
-            if open_ended and sp.upper().startswith(sn + '_') and sp[len(sn) + 1:].lstrip('+-').isdigit():
-                continue        # <SEG>_<k> is a child of an open-ended segment
+            idx = sp[len(sn) + 1:] if sp.upper().startswith(sn + '_') else ''
+            if open_ended and idx.isdigit() and idx == str(int(idx)) and int(idx) >= 1:
+                continue        # <SEG>_<k>, k = 1, 2, ... written plainly, is a child of an open-ended segment
             self.negative(make, 'segment', sn, sp.lower(), why, 0, sn, None, None, Segment)
 
     def run(self):
